@@ -323,13 +323,20 @@ impl CursorTracker for CursorTrackerImpl<'_> {
             cursor.cursor.0 = match cursor.tok_pos {
                 TokPos::Content { offset } => {
                     // offset into the token content, but don't go over the end of the token if its length has changed
-                    new_token_offset as u32 + offset.min(tok.get_content().len() as u32)
+                    let content = tok.get_content();
+                    let mut offset = (offset as usize).min(content.len());
+                    // nor into the middle of a character if its text has been rewritten
+                    while !content.is_char_boundary(offset) {
+                        offset -= 1;
+                    }
+                    (new_token_offset + offset) as u32
                 }
                 TokPos::MultilineContent {
                     reverse_col,
                     newlines_after_cursor,
                 } => {
-                    let lines = tok.get_content().rsplit('\n');
+                    let content = tok.get_content();
+                    let lines = content.rsplit('\n');
                     let offset_from_end = lines
                         .take(newlines_after_cursor.into())
                         // +1 for the separator
@@ -337,13 +344,33 @@ impl CursorTracker for CursorTrackerImpl<'_> {
                         .sum::<usize>()
                         + reverse_col as usize;
 
-                    (new_token_offset + tok.get_content().len() - offset_from_end) as u32
+                    // The lines of the token may have been rewritten; stay inside the token and
+                    // on a character boundary.
+                    let mut offset = content.len().saturating_sub(offset_from_end);
+                    while !content.is_char_boundary(offset) {
+                        offset -= 1;
+                    }
+                    (new_token_offset + offset) as u32
                 }
                 TokPos::Whitespace {
                     col,
                     newlines_after_cursor,
                 } => {
                     let mut lines_back = newlines_after_cursor.min(fmt.newlines_before);
+                    // Whatever is computed below, the cursor stays in the whitespace before the token.
+                    let ws_len = self.reconstructor.ws_len(token);
+                    let keep_in_whitespace = |pos: i64| -> u32 {
+                        let ws_start = new_token_offset - ws_len;
+                        let mut pos = pos.clamp(ws_start as i64, new_token_offset as i64) as usize;
+                        if fmt.is_ignored() {
+                            // the original whitespace is kept, and may contain multi-byte blanks
+                            let ws = tok.get_leading_whitespace();
+                            while !ws.is_char_boundary(pos - ws_start) {
+                                pos -= 1;
+                            }
+                        }
+                        pos as u32
+                    };
                     if lines_back > 0 {
                         // The cursor was on a blank line. Keep it there at column 0.
                         if fmt.newlines_before <= newlines_after_cursor && fmt.newlines_before > 1 {
@@ -351,10 +378,13 @@ impl CursorTracker for CursorTrackerImpl<'_> {
                             lines_back -= 1;
                         }
 
-                        (new_token_offset
-                            + (self.reconstructor.nl_len()
-                                * fmt.newlines_before.saturating_sub(lines_back) as usize)
-                            - self.reconstructor.ws_len(token)) as u32
+                        keep_in_whitespace(
+                            new_token_offset as i64
+                                + (self.reconstructor.nl_len()
+                                    * fmt.newlines_before.saturating_sub(lines_back) as usize)
+                                    as i64
+                                - ws_len as i64,
+                        )
                     } else {
                         // Either no newlines after cursor before formatting, or no newlines before token now
                         // in either case, the cursor should go onto the same line as the token, but we
@@ -364,13 +394,15 @@ impl CursorTracker for CursorTrackerImpl<'_> {
                         let col_end = self
                             .reconstructor
                             .col_for_token_end_post_fmt(formatted_tokens, cursor.tok_idx);
-                        let col_start = col_end - tok.get_content().len();
-                        let col_ws_start =
-                            col_start - self.reconstructor.nonbreaking_ws_len(token).len;
+                        let col_start = col_end.saturating_sub(tok.get_content().len());
+                        let col_ws_start = col_start
+                            .saturating_sub(self.reconstructor.nonbreaking_ws_len(token).len);
 
-                        (new_token_offset
-                            - (col_start - (col as usize).clamp(col_ws_start, col_start)))
-                            as u32
+                        keep_in_whitespace(
+                            new_token_offset as i64
+                                - (col_start - (col as usize).clamp(col_ws_start, col_start))
+                                    as i64,
+                        )
                     }
                 }
             };
